@@ -263,7 +263,7 @@ def fixed_tables():
 
 def run_shard(rec):
     quick = rec.tier == 'quick'
-    rec.deadline = time.time() + (60 if quick else 900)
+    rec.deadline = time.time() + (300 if quick else 900)
     rng = rec.rng
     idx = 0
     for rows in fixed_tables():
